@@ -197,6 +197,19 @@ def h_parse(eng, u):
             _close(eng, mag.std_dev, e, "parse:std")
             if u in text:
                 eng.prove(str(q.units) == u, "parse:units")
+        # an exponent suffix applies to the nominal value and to the error alike -- also when the
+        # nominal mantissa is zero, which is how pint itself renders Measurement(0, 4e-05, u)
+        for k, etext in ((-5, "e-05"), (3, "e+03"), (2, "e2")):
+            scale = (10.0**k) if not eng.symbolic else eng.num(Fraction(10) ** k)
+            for vn, vt, vv in (("v", lit(v), v * scale), ("0", "0", 0), ("0.0", "0.0", 0)):
+                for pm in ("+/-", "±"):
+                    text = f"({vt} {pm} {lit(e)}){etext} {u}"
+                    q = ureg.parse_expression(text)
+                    mag = q.magnitude
+                    eng.prove(hasattr(mag, "nominal_value"), f"parse-exp:uncertain-magnitude:{vn}:{etext}")
+                    _close(eng, mag.nominal_value, vv, f"parse-exp:nominal:{vn}:{etext}")
+                    _close(eng, mag.std_dev, e * scale, f"parse-exp:std:{vn}:{etext}")
+                    eng.prove(str(q.units) == u, "parse-exp:units")
 
 
 MIN_DISCHARGED = {"H19.a": 200, "H19.b": 100, "H19.c": 100}
